@@ -41,17 +41,34 @@ def graph_orientation(A):
                 if isinstance(x, ast.Name):
                     binders.setdefault(x.id, []).append(src(st.iter))
 
-    def kind(a):
-        if not isinstance(a, ast.Name):
+    pair_lists = {}   # local bound to a comprehension of (a, b) pairs -> the comprehension
+    for st in inl(A, f):
+        if isinstance(st, ast.Assign) and len(st.targets) == 1 and isinstance(st.targets[0], ast.Name) and isinstance(st.value, (ast.ListComp, ast.GeneratorExp, ast.SetComp)) \
+                and isinstance(st.value.elt, ast.Tuple):
+            pair_lists[st.targets[0].id] = st.value
+
+    def kind(a, _depth=0):
+        if not isinstance(a, ast.Name) or _depth > 3:
             return None
-        its = binders.get(a.id, [])
-        if len(its) != 1:
-            return None
-        if 'input_tasks' in its[0]:
-            return 'input'
-        if 'self.tasks' in its[0]:
-            return 'task'
-        return None
+        kinds = set()
+        for st in inl(A, f):
+            if isinstance(st, (ast.For, ast.comprehension)):
+                names = [x for x in ast.walk(st.target) if isinstance(x, ast.Name)]
+                if not any(x.id == a.id for x in names):
+                    continue
+                it = src(st.iter)
+                if isinstance(st.iter, ast.Name) and st.iter.id in pair_lists and isinstance(st.target, ast.Tuple):
+                    # iterating a list of pairs built before: the kind of the element at the same position
+                    pos = next((i for i, e in enumerate(st.target.elts) if isinstance(e, ast.Name) and e.id == a.id), None)
+                    comp = pair_lists[st.iter.id]
+                    kinds.add(kind(comp.elt.elts[pos], _depth + 1) if pos is not None and pos < len(comp.elt.elts) else None)
+                elif 'input_tasks' in it:
+                    kinds.add('input')
+                elif 'self.tasks' in it:
+                    kinds.add('task')
+                else:
+                    kinds.add(None)
+        return next(iter(kinds)) if len(kinds) == 1 else None
 
     res = []
     for n in inl(A, f):
@@ -127,6 +144,10 @@ def run(A, R: Report, thorough: bool):
     else:
         o = orient.pop()
         R.ok('R07.3', 'Chain._build_graph', f'edges are {o}', where=where(fb, edges[0][1]))
+    from .c08 import edge_coverage
+    ok_e, why_e = edge_coverage(A, fb)
+    R.check(ok_e, 'R07.3', 'Chain._build_graph: edges', key_of('edges', why_e), 'the graph the closures are computed on has an edge for every Task-valued input',
+            f'the dependency graph lacks declared edges ({why_e}): forcing a task does not reach everything downstream of it', where=where(fb))
     if o is not None:
         fwd = o == 'input->task'
         expect = {'dependent_tasks': 'descendants' if fwd else 'ancestors', 'required_tasks': 'ancestors' if fwd else 'descendants'}
@@ -315,3 +336,6 @@ def run(A, R: Report, thorough: bool):
                         witness=[e.describe()[:300]], where=where_f)
         else:
             R.ok('R07.7', ci.short, f'{len(renames)} publishing rename(s); no other write reaches the visible path', where=where_f)
+    from .c05 import check_move_replaces
+    check_move_replaces(A, R, 'R07.7', classes)
+
